@@ -376,12 +376,7 @@ func (c Char) LaxEqual(other Value) bool {
 	if other.IsReference() {
 		switch o := other.AsReference().(type) {
 		case String:
-			ch, ok := o.ToChar()
-			if !ok {
-				return false
-			}
-
-			return c == ch
+			return String(c) == o
 		default:
 			return false
 		}
